@@ -303,7 +303,16 @@ def run(scn, mode="step", tap=True, events_mode="add", max_steps=None, outdir=No
         model = scen.build_model(scn, mriot)
         res["init"] = snap_init(model)
         res["stage"] = "sim"
-        sim = scen.build_sim(scn, model, outdir=outdir, events_mode=events_mode)
+        late = scn.get("sim", {}).get("late")
+        late_events = []
+        if late:
+            # events[first:] are registered while the simulation is running, after `k` steps
+            head = dict(scn, events=scn["events"][:late["first"]])
+            sim = scen.build_sim(head, model, outdir=outdir, events_mode=events_mode)
+            late_events = [scen.build_event(e) for e in scn["events"][late["first"]:]]
+            res["registrations"] = []
+        else:
+            sim = scen.build_sim(scn, model, outdir=outdir, events_mode=events_mode)
         res["stage"] = "run"
         t = Tap(sim) if tap else None
         n = scn.get("sim", {}).get("n", 20)
@@ -317,6 +326,16 @@ def run(scn, mode="step", tap=True, events_mode="add", max_steps=None, outdir=No
                 for _ in range(0, n, int(dt)):
                     if max_steps is not None and k >= max_steps:
                         break
+                    if late_events and k == late["k"]:
+                        reg = {"k": k, "t": int(sim.current_temporal_unit), "pre": snap_trackers(sim), "api": late.get("api", "add_events")}
+                        res["registrations"].append(reg)
+                        if late.get("api", "add_events") == "add_events":
+                            sim.add_events(late_events)
+                        else:
+                            for ev_ in late_events:
+                                sim.add_event(ev_)
+                        late_events = []
+                        reg["post"] = snap_trackers(sim)
                     r = sim.next_step()       # driven exactly as a user would: nothing else is touched
                     k += 1
                     if r == 1:
